@@ -6,7 +6,7 @@ import io
 import itertools
 import os
 
-from mc import harness
+from mc import harness, seqdiff
 from mc.common import HarnessError, Stats, pmap, safe, scratch_dir, rm_scratch
 
 PROPERTY = 'C16'
@@ -15,7 +15,7 @@ RULE = ('every table of 1..3 columns x 1 row over the cell alphabet {"", a, " ",
         '(QUOTE_MINIMAL / QUOTE_ALL, \\n / \\r\\n) for csv-raw and ob-csv, (b) tab-joined for ob-raw-dump, and parsed by generic_line_parser; '
         '(c) VW lines: every subset and order of 3 namespaces (+ an undeclared one), 0..3 prefixed tokens each, label with/without weight and tag, '
         'surplus spaces; (d) every namespace-map file of <= 3 lines over 3 ids x 4 type spellings; (e) the field-count test of the streaming '
-        'loop on 2-line files with one field removed/added. distinct_nontrivial = distinct rendered lines with >= 2 fields')
+        'loop on 2-line files with one field removed/added; (f) sequence differential: every sequence of <= 3 lines from an 8-line menu parsed in one process state. distinct_nontrivial = distinct rendered lines with >= 2 fields')
 ASSUMPTIONS = ['csv.writer is the trusted renderer of well-formed CSV', 'cells contain no line breaks and (for TSV) no tab, VW tokens contain no space, "|" or "-"',
                'VW: for tokens after the first both readings of "without their two-character prefix" are accepted (verbatim or stripped)']
 
@@ -285,8 +285,34 @@ def _validity(job):
     return st
 
 
+SEQ_LINES = [
+    ('ob-vw', "1 |AE AEx AE12 |AK AKa_b |As Asx\n"),
+    ('ob-vw', "-1 |AK AK12\n"),
+    ('ob-vw', "0 |As Asa_b |ZZ ZZq\n"),
+    ('ob-vw', "1\n"),
+    ('csv-raw', 'a,"b,c",\n'),
+    ('csv-raw', ',,\n'),
+    ('ob-raw-dump', 'a\t\t b \n'),
+    ('ob-raw-dump', '\t\t\n'),
+]
+
+
+def seq_call(x):
+    source, line = x
+    args = harness.make_args(data_source=source)
+    return glp()(line, '\t' if source == 'ob-raw-dump' else ',', args, dict(FW), list(HEADER))
+
+
+def _seqdiff(_):
+    st = Stats()
+    seqdiff.run(seq_call, SEQ_LINES, 3, st, lambda seq, pos: {'kind': 'seqdiff', 'seq': list(seq)}, {'kind': 'history_dependent'})
+    return st
+
+
 def _dispatch(item):
     k, job = item
+    if k == 'seqdiff':
+        return _seqdiff(job)
     return {'tables': _tables, 'vw': _vw, 'ns': _nsmaps, 'validity': _validity}[k](job)
 
 
@@ -295,7 +321,7 @@ def run(ctx):
     jobs += [('tables', (3, lo, lo + 125)) for lo in range(0, 1000, 125)]
     nv = sum(1 for _ in vw_cases())
     jobs += [('vw', (lo, min(nv, lo + 200))) for lo in range(0, nv, 200)]
-    jobs += [('ns', None), ('validity', None)]
+    jobs += [('ns', None), ('validity', None), ('seqdiff', None)]
     for st in pmap(_dispatch, jobs):
         ctx.stats.merge(st)
     ctx.extra['vw_structures'] = nv
@@ -306,6 +332,8 @@ def run(ctx):
 def eval_case(case):
     st = Stats()
     k = case['kind']
+    if k == 'seqdiff':
+        return seqdiff.replay(seq_call, SEQ_LINES, case['seq'])
     if k == 'csv':
         q = csv.QUOTE_MINIMAL if case['quoting'] == 'minimal' else csv.QUOTE_ALL
         check_line(case['source'], render_csv(case['row'], q, case['eol']), ',', case['row'], st, case)
